@@ -7,7 +7,7 @@ CONSTANTS
   SizeLimit = 3
   NoSync = FALSE
   MaxFaults = 1
-  FaultCalls = {"open", "write", "link", "sync", "close", "rename", "unlink"}
+  FaultCalls = {"open", "write", "short", "link", "sync", "close", "rename", "unlink"}
   CrashOn = FALSE
   BugPrecedence = FALSE
   BugLockLeak = FALSE
